@@ -18,6 +18,24 @@ import z3
 FORKPROF = {} if os.environ.get("PYVC_FORKPROF") else None
 
 
+def _has_quantifier(t, _seen=None):
+    """does the formula contain a quantifier (then the solver may answer `unknown`)"""
+    if _seen is None:
+        _seen = set()
+    stack = [t]
+    while stack:
+        x = stack.pop()
+        i = x.get_id()
+        if i in _seen:
+            continue
+        _seen.add(i)
+        if z3.is_quantifier(x):
+            return True
+        if z3.is_app(x):
+            stack.extend(x.children())
+    return False
+
+
 class VCError(Exception):
     """checker-level error (exit 3), never a violation"""
 
@@ -109,6 +127,7 @@ class PathCtx:
         self.n_real = 0  # decisions proper (speculative entries of the trace not counted)
         self.no_fork = False
         self.interp = None
+        self.hard = False  # a quantified fact is on the path: `unknown` answers are possible
         self.tainted = False  # a refuted/undecided obligation was assumed: pc may be unsat
         self.premises = []
 
@@ -132,6 +151,10 @@ class PathCtx:
             return
         self.solver.add(cond)
         self.n_pc += 1
+        if not self.hard and _has_quantifier(cond):
+            # from here on the solver may answer `unknown` (incomplete quantifier
+            # instantiation): an infeasible path can be discovered late
+            self.hard = True
 
     # premises that hold only for the obligations of a scope (Skolem ranges): they are
     # hypotheses of those checks, never part of the path condition
@@ -197,11 +220,14 @@ class PathCtx:
             elif can_f:
                 choice = False
             else:
-                if not self.tainted:
+                if not self.tainted and not self.hard:
                     # the path condition is unsatisfiable although nothing was assumed that
-                    # could make it so: the exploration itself is inconsistent (never silently
-                    # drop such a path -- it would hide violations)
+                    # could make it so and the solver is complete for what is on the path:
+                    # the exploration itself is inconsistent (never silently drop such a
+                    # path -- it would hide violations)
                     raise VCError("engine inconsistency: path condition unsatisfiable at a branch (trace %r)" % (self.trace,))
+                # with quantified facts on the path an earlier feasibility check may have
+                # answered `unknown` (treated as feasible): the infeasibility shows only now
                 raise PathAbort()
         self.trace.append(choice)
         self.n_real += 1
